@@ -128,7 +128,7 @@ func frames(stack []int, expand bool) []string {
 }
 
 // A sample without frames still has to be somewhere if the root totals are to add up to the sample values: the
-// reference puts it under one placeholder root frame (dropEmpty=true leaves it out: the deviant rule of D43).
+// reference puts it under one placeholder root frame (dropEmpty=true leaves it out: the deviant rule of D62).
 func (t trie) add(p *Prof, expand bool, ntypes int, dropEmpty bool) {
 	for _, s := range p.Samples {
 		fr := frames(s.Stack, expand)
